@@ -109,7 +109,7 @@ class Call:
         self.full = f.get("full", "")
         self.targs = f.get("targs", [])
         self.args = term["args"]
-        self.dest = term["dest"]
+        self.dest = term["dest"] or term.get("dest_orig") or []   # a spliced call keeps where its result ends up
         self.target = term.get("t")
         sp = term.get("fsp") or {}
         self.line = sp.get("l")
